@@ -125,15 +125,19 @@ def handle_counterexample(ctx, prop, impl, stream, ops, want, got):
 
 def check(ctx):
     build = C.ensure_built("C09", ["disk"])
-    streams = ["core", "big"] if ctx.tier == "quick" else ["core", "big", "shortbuf"]
+    # (`huge`: block counts whose byte length is not a file offset; were such a disk opened, blocks whose byte offsets agree
+    #  modulo 2^64 would be ONE register — the specification refuses them, as Props/C11 `not_openable_iff` says the code does)
+    streams = ["core", "big", "huge"] if ctx.tier == "quick" else ["core", "big", "huge", "shortbuf"]
 
     def impls_for(stream):
-        if stream == "big":
+        if stream in ("big", "huge"):
             return ["file", "afile", "gfile"]
         return IMPLS
     # the shortbuf stream (ReadTo into a non-block buffer) is outside the property's quantifier:
     # only the models are compared there, never the specification
     found, stats = explore_c09(ctx, build, streams, impls_for)
+    if short_write_scenarios(ctx, build, stats, found):
+        found = True
     if build.broken and not found:
         ch = changed_decls()
         if ch:
@@ -152,6 +156,55 @@ def check(ctx):
         "hand-written models are tied by canonical declaration text (any edit of machine/disk breaks facts_ok) and by sampling",
     ]
     return ctx.finish(build)
+
+
+def short_write_scenarios(ctx, build, stats, found):
+    """A pwrite that the kernel cuts short (RLIMIT_FSIZE inside the block, SIGXFSZ ignored) reports a byte count, not an error.
+    C09's reading: a Write that RETURNS has stored exactly its block, and no Write — returned or panicked — touches another block.
+    (That the failure is reported at all is C11's business; here a panic is accepted.)"""
+    if not build.driver_ok:
+        return False
+    hit = False
+    n = agree = 0
+    for a in (2, 0):
+        for cut in (1, 100, 3000, 4095):
+            ops = ["new 4", "buf 4096 7", "buf 4096 9", "write %d 0" % a, "write %d 0" % ((a + 1) % 4), "fsize %d" % (a * 4096 + cut),
+                   "write %d 1" % a, "read %d" % a, "read %d" % ((a + 1) % 4), "read %d" % ((a + 3) % 4)]
+            plain = [o for o in ops if not o.startswith("fsize")]
+            ss = C.run([C.DRIVER, "disk", "spec"], input="\n".join(plain) + "\n", env=os.environ.copy()).stdout.splitlines()
+            ss = ss[:5] + ["ok"] + ss[5:]
+            for impl in ("file", "afile", "gfile"):
+                scratch = C.scratch()
+                try:
+                    rr = run_real(impl, ops, scratch)
+                finally:
+                    shutil.rmtree(scratch, ignore_errors=True)
+                n += 1
+                stats["ops"] += len(ops)
+                if len(rr) != len(ops) or any(r.startswith("harness-error") or r in ("bad-op", "unsupported") for r in rr):
+                    raise C.Infra("C09 short-write scenario could not be set up (%s): %s" % (impl, rr))
+                want = list(ss)
+                if rr[6] == "panic":
+                    want[6] = "panic"
+                    want[7] = rr[7]        # the block of a Write that panicked is unspecified by C09 …
+                    # … but Model/ShortWrite predicts it (Props/C09 write_panic_prefix): the kernel's schedule under this limit is
+                    # "cut bytes, then EFBIG", and the block must be the first `cut` new bytes over the old ones
+                    mm = C.run([C.DRIVER, "disk", "sw"], input="sw 4096 7 9 %d e\n" % cut, env=os.environ.copy()).stdout.split()
+                    got = rr[7].split()
+                    if len(mm) == 3 and mm[0] == "panic" and len(got) == 3 and got[2] == mm[1]:
+                        agree += 1
+                    else:
+                        build.broken.append({"kind": "correspondence", "name": "disk: Lean ShortWrite model vs %s" % impl,
+                                             "detail": "after a Write cut short at byte %d and then refused, the model leaves %s, the code %s"
+                                                       % (cut, mm, got)})
+                if rr != want and not (found or hit):
+                    hit = True
+                    ctx.violation("counterexample", "disk (%s): a Write cut short by the file-size limit returned normally but the block "
+                                  "(or a neighbour) does not hold what the register array holds" % impl,
+                                  {"proto": "disk", "impl": impl, "ops": ops, "scenario": "short-write"}, expected=want, observed=rr)
+    stats["short_write_runs"] = n
+    stats["short_write_model_agreements"] = agree
+    return hit
 
 
 def explore_c09(ctx, build, streams, impls_for):
@@ -186,6 +239,8 @@ def finish_cov(ctx, stats):
                 "generated (each executed on every listed variant); distinct_nontrivial = distinct histories (all have >= 5 ops)",
         "samples": stats["samples"],
         "per_stream": stats["per_stream"],
+        "short_write_runs": stats.get("short_write_runs", 0),
+        "short_write_model_agreements": stats.get("short_write_model_agreements", 0),
         "reply_kinds_observed": dict(stats["replies"]),
         "spec_disagreements": stats["spec_disagreements"],
         "model_disagreements": stats["model_disagreements"],
@@ -201,7 +256,13 @@ def replay(ctx, path):
     scratch = C.scratch()
     try:
         rr = run_real(inp["impl"], inp["ops"], scratch)
-        ss = C.run([C.DRIVER, "disk", "spec"], input="\n".join(inp["ops"]) + "\n", env=os.environ.copy()).stdout.splitlines()
+        plain = [o for o in inp["ops"] if not o.startswith("fsize")]
+        ss = C.run([C.DRIVER, "disk", "spec"], input="\n".join(plain) + "\n", env=os.environ.copy()).stdout.splitlines()
+        if inp.get("scenario") == "short-write":     # see short_write_scenarios
+            k = [i for i, o in enumerate(inp["ops"]) if o.startswith("fsize")][0]
+            ss = ss[:k] + ["ok"] + ss[k:]
+            if len(rr) > k + 2 and rr[k + 1] == "panic":
+                ss[k + 1], ss[k + 2] = "panic", rr[k + 2]
     finally:
         shutil.rmtree(scratch, ignore_errors=True)
     for o, s, r in zip(inp["ops"], ss, rr):
